@@ -74,6 +74,10 @@ func runC03(e *core.Env) {
 			caseID := i*3 + int64(k)
 			env := genEnv(r, today)
 			cmd := genLikelyCommand(r, model, env, true)
+			if cmd.Kind == "pause" && len(cmd.Ticks) >= 2 && core.Hash64("c03-foreign", fmt.Sprint(e.Seed, caseID))%2 == 0 {
+				// while the pause loop runs, somebody else (an editor, another klog) appends a record to the file
+				cmd.ForeignEdit = 1 + int(core.Hash64("c03-foreign-at", fmt.Sprint(e.Seed, caseID))%uint64(len(cmd.Ticks)))
+			}
 			if err := os.WriteFile(file, []byte(text), 0644); err != nil {
 				panic(err)
 			}
@@ -84,7 +88,22 @@ func runC03(e *core.Env) {
 			if res.Panic != nil {
 				e.Violation("command-panic: "+res.Panic.Site(), fmt.Sprintf("`klog %s` panicked: %s", cmd.String(), res.Panic.Value), w)
 			} else if res.OK {
-				if msg := c03Judge(text, after, cmd); msg != "" {
+				if res.ForeignDone {
+					// two stretches: the file klog was given -> what it had made of it when the other party came;
+					// what the other party left -> the final file (from then on only the pause value may change)
+					w["file_when_the_other_party_came"], w["file_as_the_other_party_left_it"] = res.ForeignBefore, res.ForeignAfter
+					later := cmd
+					later.Extend = true
+					if msg := c03Judge(text, res.ForeignBefore, cmd); msg != "" {
+						e.Violation("lines-not-preserved: "+cmd.Kind, fmt.Sprintf("`klog %s`: %s", cmd.String(), msg), w)
+					} else if msg := c03Judge(res.ForeignAfter, after, later); msg != "" {
+						e.Violation("lines-not-preserved: pause after a foreign edit", fmt.Sprintf("`klog %s`, judged against the file as the other party left it: %s", cmd.String(), msg), w)
+					}
+					e.Count("pause_runs_with_a_foreign_edit_in_between", 1)
+					if after != res.ForeignAfter {
+						e.Count("pause_runs_writing_after_a_foreign_edit", 1)
+					}
+				} else if msg := c03Judge(text, after, cmd); msg != "" {
 					e.Violation("lines-not-preserved: "+cmd.Kind, fmt.Sprintf("`klog %s`: %s", cmd.String(), msg), w)
 				}
 				e.Count("successful_commands", 1)
@@ -119,6 +138,7 @@ const (
 	sameLine lineKindC03 = iota
 	eolGain
 	placeholderRewrite
+	placeholderAppend // the placeholder replaced and text appended to the same line
 	appendRewrite
 	durationRewrite
 	noMatch
@@ -165,7 +185,7 @@ func c03Match(o, n ref.SrcLine, cmd MCmd) lineKindC03 {
 						return placeholderRewrite
 					}
 					if cmd.Kind == "stop" && cmd.Summary != nil && strings.HasPrefix(remaining, rest+" ") && len(remaining) > len(rest)+1 {
-						return placeholderRewrite
+						return placeholderAppend
 					}
 				}
 			}
@@ -238,6 +258,19 @@ func c03Judge(before, after string, cmd MCmd) string {
 		bi, ai := len(b)-1-i, len(a)-1-i
 		k := c03Match(b[bi], a[ai], cmd)
 		rewrites[k] = append(rewrites[k], bi)
+	}
+	if pa := rewrites[placeholderAppend]; len(pa) > 0 {
+		// text went onto the placeholder line itself: that line has to be the entry's last line
+		pl := pa[0]
+		ind := b[pl].Text[:len(b[pl].Text)-len(strings.TrimLeft(b[pl].Text, " \t"))]
+		if ind != "" && pl+1 < len(b) && strings.HasPrefix(b[pl+1].Text, ind+ind) && !ref.IsBlankST(b[pl+1].Text) {
+			return fmt.Sprintf("text was appended to line %d (the open range), which is not the LAST line of that entry: its summary continues on line %d", pl+1, pl+2)
+		}
+		if len(rewrites[appendRewrite]) > 0 {
+			return fmt.Sprintf("text was appended to the rewritten open range (line %d) and to another line (%v)", pl+1, plus1(rewrites[appendRewrite]))
+		}
+		rewrites[placeholderRewrite] = append(rewrites[placeholderRewrite], pa...)
+		delete(rewrites, placeholderAppend)
 	}
 	if n := len(rewrites[placeholderRewrite]); n > 1 {
 		return fmt.Sprintf("%d open-range lines were rewritten (lines %v)", n, plus1(rewrites[placeholderRewrite]))
